@@ -10,6 +10,14 @@ require (
 	go.opentelemetry.io/otel/trace v1.35.0
 )
 
+require (
+	github.com/go-logr/logr v1.4.2 // indirect
+	github.com/go-logr/stdr v1.2.2 // indirect
+	github.com/google/uuid v1.6.0 // indirect
+	go.opentelemetry.io/auto/sdk v1.1.0 // indirect
+	golang.org/x/sys v0.32.0 // indirect
+)
+
 replace go.opentelemetry.io/otel => /repo
 
 replace go.opentelemetry.io/otel/metric => /repo/metric
